@@ -1,4 +1,5 @@
 import CvssVerif.Proofs.Accept2
+import CvssVerif.Proofs.Deleg
 /-
   C08 — v2 decoders accept exactly the canonical v2 vectors of their level.
   `Spec2.canon2 L s` is the property's grammar (executable, independent of the decoder).
@@ -48,5 +49,12 @@ example : Spec2.canon2 .environmental b!"AV:N/AC:L/Au:N/C:P/I:P/A:P/CDP:H/TD:H/C
 example : Spec2.canon2 .temporal b!"AV:N/AC:L/Au:N/C:P/I:P/A:P/CDP:H/TD:H/CR:M/IR:M/AR:H" = false := by decide
 example : Spec2.canon2 .temporal b!"AV:N/AC:L/Au:N/C:P/I:P/A:P/E:F/RC:C" = false := by decide
 example : Spec2.canon2 .temporal b!"AC:L/AV:N/Au:N/C:P/I:P/A:P" = false := by decide
+
+/-- **Model fidelity: delegation.** The model's `decodeOne` (one lookup among the metrics of all
+    levels up to the decoder's) equals the literal structure of the Go code, where each level's
+    `decodeOne` first calls the lower level's and handles the token itself only on "not supported
+    metric". -/
+theorem delegation (L : Level) (o : V2.Obj2) (tok : Bytes) : V2.decodeOneLit L o tok = V2.decodeOne L o tok :=
+  V2.decodeOneLit_eq L o tok
 
 end CvssVerif.Props.C08
